@@ -11,18 +11,23 @@
 
 namespace {
 
-template<unsigned S> struct alignas(S) P { unsigned char b[S]; };
+// Two element families: TA == S (alignof == sizeof, like the AVEL vector types) and TA < S (alignof < sizeof, like float[16] or a
+// struct of three doubles - the second family came with the independently seeded change c18n; sizes 3, 12 and 24 are not powers of two)
+template<unsigned S, unsigned TA = S> struct alignas(TA) P { unsigned char b[S]; };
 static_assert(sizeof(P<1>) == 1 && sizeof(P<16>) == 16 && sizeof(P<64>) == 64 && alignof(P<64>) == 64, "pod layout");
+static_assert(sizeof(P<64, 4>) == 64 && alignof(P<64, 4>) == 4 && sizeof(P<12, 4>) == 12 && sizeof(P<24, 8>) == 24 && sizeof(P<3, 1>) == 3, "pod layout");
 
-template<unsigned S> P<S> mk(const unsigned char* e) { P<S> x; std::memcpy(x.b, e, S); return x; }
+template<unsigned S, unsigned TA> P<S, TA> mk(const unsigned char* e) { P<S, TA> x; std::memcpy(x.b, e, S); return x; }
 
-template<unsigned S, unsigned A> struct R {
-    using T = P<S>;
+template<unsigned S, unsigned A, unsigned TA = S> struct R {
+    using T = P<S, TA>;
     using Al = avel::Aligned_allocator<T, A>;
     // an allocator for a different element type with the same alignment; rebinding it to T must give Al
-    using Other = avel::Aligned_allocator<P<(S == 1 ? 1 : S / 2)>, A>;
+    using Other = avel::Aligned_allocator<typename std::conditional<TA == S, P<(S == 1 ? 1 : S / 2)>, P<TA, TA>>::type, A>;
     using Rebound = typename Other::template rebind<T>::other;
-    static_assert(std::is_same<Rebound, Al>::value, "rebind keeps the alignment");
+    // (for the first family the identity is also asserted at compile time; for the second one it is left to the run-time oracles:
+    //  allocate_rebound and the vector's storage must be aligned to A)
+    static_assert(TA != S || std::is_same<Rebound, Al>::value, "rebind keeps the alignment");
     static_assert(Al::alignment == A, "alignment constant");
     using Vec = std::vector<T, Al>;
     using Lst = std::list<T, Al>;
@@ -41,8 +46,8 @@ template<unsigned S, unsigned A> struct R {
     }
     static void* vnew() { return new Vec(); }
     static void vdel(void* h) { delete static_cast<Vec*>(h); }
-    static void vpush(void* h, const unsigned char* e) { static_cast<Vec*>(h)->push_back(mk<S>(e)); }
-    static void vresize(void* h, std::size_t n, const unsigned char* e) { static_cast<Vec*>(h)->resize(n, mk<S>(e)); }
+    static void vpush(void* h, const unsigned char* e) { static_cast<Vec*>(h)->push_back(mk<S, TA>(e)); }
+    static void vresize(void* h, std::size_t n, const unsigned char* e) { static_cast<Vec*>(h)->resize(n, mk<S, TA>(e)); }
     static void vreserve(void* h, std::size_t n) { static_cast<Vec*>(h)->reserve(n); }
     static void vshrink(void* h) { static_cast<Vec*>(h)->shrink_to_fit(); }
     static void* vcopy(void* h) { return new Vec(*static_cast<Vec*>(h)); }
@@ -55,24 +60,26 @@ template<unsigned S, unsigned A> struct R {
     static const void* vdata(void* h) { return static_cast<Vec*>(h)->data(); }
 };
 
-template<unsigned S, unsigned A> struct L {
-    using T = P<S>;
+template<unsigned S, unsigned A, unsigned TA = S> struct L {
+    using T = P<S, TA>;
     using Lst = std::list<T, avel::Aligned_allocator<T, A>>;
     static void* lnew() { return new Lst(); }
     static void ldel(void* h) { delete static_cast<Lst*>(h); }
-    static void lpush_back(void* h, const unsigned char* e) { static_cast<Lst*>(h)->push_back(mk<S>(e)); }
-    static void lpush_front(void* h, const unsigned char* e) { static_cast<Lst*>(h)->push_front(mk<S>(e)); }
+    static void lpush_back(void* h, const unsigned char* e) { static_cast<Lst*>(h)->push_back(mk<S, TA>(e)); }
+    static void lpush_front(void* h, const unsigned char* e) { static_cast<Lst*>(h)->push_front(mk<S, TA>(e)); }
     static void lpop_back(void* h) { static_cast<Lst*>(h)->pop_back(); }
     static void lpop_front(void* h) { static_cast<Lst*>(h)->pop_front(); }
     static std::size_t lsize(void* h) { return static_cast<Lst*>(h)->size(); }
     static void lget(void* h, std::size_t i, unsigned char* out) { auto it = static_cast<Lst*>(h)->begin(); std::advance(it, (long)i); std::memcpy(out, it->b, S); }
 };
 
-#define VEC_PART(S, A) S, A, &R<S, A>::allocate, &R<S, A>::allocate_hint, &R<S, A>::allocate_rebound, &R<S, A>::deallocate, &R<S, A>::misc, \
-    &R<S, A>::vnew, &R<S, A>::vdel, &R<S, A>::vpush, &R<S, A>::vresize, &R<S, A>::vreserve, &R<S, A>::vshrink, &R<S, A>::vcopy, &R<S, A>::vmove, \
-    &R<S, A>::vswap, &R<S, A>::vassign, &R<S, A>::vclear, &R<S, A>::vsize, &R<S, A>::vcap, &R<S, A>::vdata
-#define E_NOLIST(S, A) {VEC_PART(S, A), nullptr, nullptr, nullptr, nullptr, nullptr, nullptr, nullptr, nullptr},
-#define E_LIST(S, A) {VEC_PART(S, A), &L<S, A>::lnew, &L<S, A>::ldel, &L<S, A>::lpush_back, &L<S, A>::lpush_front, &L<S, A>::lpop_back, &L<S, A>::lpop_front, &L<S, A>::lsize, &L<S, A>::lget},
+#define VEC_PART(S, A, TA) S, A, TA, &R<S, A, TA>::allocate, &R<S, A, TA>::allocate_hint, &R<S, A, TA>::allocate_rebound, &R<S, A, TA>::deallocate, &R<S, A, TA>::misc, \
+    &R<S, A, TA>::vnew, &R<S, A, TA>::vdel, &R<S, A, TA>::vpush, &R<S, A, TA>::vresize, &R<S, A, TA>::vreserve, &R<S, A, TA>::vshrink, &R<S, A, TA>::vcopy, &R<S, A, TA>::vmove, \
+    &R<S, A, TA>::vswap, &R<S, A, TA>::vassign, &R<S, A, TA>::vclear, &R<S, A, TA>::vsize, &R<S, A, TA>::vcap, &R<S, A, TA>::vdata
+#define Q_NOLIST(S, A, TA) {VEC_PART(S, A, TA), nullptr, nullptr, nullptr, nullptr, nullptr, nullptr, nullptr, nullptr},
+#define Q_LIST(S, A, TA) {VEC_PART(S, A, TA), &L<S, A, TA>::lnew, &L<S, A, TA>::ldel, &L<S, A, TA>::lpush_back, &L<S, A, TA>::lpush_front, &L<S, A, TA>::lpop_back, &L<S, A, TA>::lpop_front, &L<S, A, TA>::lsize, &L<S, A, TA>::lget},
+#define E_NOLIST(S, A) Q_NOLIST(S, A, S)
+#define E_LIST(S, A) Q_LIST(S, A, S)
 // list nodes hold two pointers: alignof(node) == max(8, S); the class static_asserts A >= alignof(T)
 #define FROM16(S) E_LIST(S, 16) E_LIST(S, 32) E_LIST(S, 64) E_LIST(S, 128) E_LIST(S, 256) E_LIST(S, 512) E_LIST(S, 1024) E_LIST(S, 2048) E_LIST(S, 4096)
 
@@ -91,8 +98,17 @@ const HOps table[] = {
     E_LIST(8, 8) FROM16(8)
 #elif HEAP_PART == 4
     FROM16(16)
-#else
+#elif HEAP_PART == 5
     E_LIST(64, 64) E_LIST(64, 128) E_LIST(64, 256) E_LIST(64, 512) E_LIST(64, 1024) E_LIST(64, 2048) E_LIST(64, 4096)
+#elif HEAP_PART == 6
+    // alignof(T) < sizeof(T): A may be smaller than the element, and n * sizeof(T) is rarely a multiple of A
+    Q_NOLIST(64, 4, 4) Q_LIST(64, 8, 4) Q_LIST(64, 16, 4) Q_LIST(64, 32, 4) Q_LIST(64, 64, 4) Q_LIST(64, 128, 4) Q_LIST(64, 4096, 4)
+    Q_LIST(64, 16, 16) Q_LIST(64, 32, 16) Q_LIST(64, 256, 16)
+#else
+    Q_NOLIST(12, 4, 4) Q_LIST(12, 8, 4) Q_LIST(12, 16, 4) Q_LIST(12, 32, 4) Q_LIST(12, 64, 4) Q_LIST(12, 1024, 4)
+    Q_LIST(24, 8, 8) Q_LIST(24, 16, 8) Q_LIST(24, 32, 8) Q_LIST(24, 128, 8)
+    Q_NOLIST(16, 1, 1) Q_NOLIST(16, 2, 1) Q_LIST(16, 8, 1) Q_LIST(16, 32, 1)
+    Q_NOLIST(3, 1, 1) Q_LIST(3, 8, 1) Q_LIST(3, 32, 1)
 #endif
 };
 
